@@ -80,6 +80,17 @@ CHECKS["C09"] = dict(
          "ota.py, crcmod 'modbus', struct/binascii and intelhex 2.3 (sampled by the correspondence, not proved).",
     design_ref="DESIGN.md §6 C09")
 
+CHECKS["C05"] = dict(
+    technique="Lean 4 proof: reply table per message kind (exact message handed to route) and validity of each prescribed reply against the generated tables; differential correspondence on emitted text per step; oracle re-decoding and re-validating every emitted string on the real code",
+    text="value_request_reply, config_reply, time_reply, gateway_ready_reply, unknown_gets_presentation_request, "
+         "internal_without_handler_silent, set_without_reboot_silent (+ C06.alloc_reply for id requests) characterise the "
+         "output of logic for each kind for all states and messages; config_reply_valid, time_reply_valid, value_reply_valid "
+         "show the prescribed replies valid for the configured version (table facts re-checked on every build); "
+         "emitted_line_canonical ties the line to C02. The global statement 'every emitted line is valid' is NOT a theorem "
+         "yet (partial): it is decided by the oracle, which re-decodes and re-validates every string the real gateway emits.",
+    note=GW_NOTE + " Partial: see text. Controller ids in protocol range, values carryable, clock within the digit limit.",
+    design_ref="DESIGN.md §6 C05")
+
 NOT_YET = {
 }
 
